@@ -103,6 +103,33 @@ def main():
                         err = max(np.max(np.abs(s.pos - q)), np.max(np.abs(s.mom - p)))
                         if not err < 1e-6:
                             fails.append(f"{kind} on {name} eps={eps} n={n} dir={d}: forward-backward error {err:.3e}")
+    # `or fails loudly`: an integrator error raised by a sub-step must leave _step as that exception (no silent fallback)
+    from mici.errors import ConvergenceError
+    for name, sysm, kinds in systems():
+        for kind in kinds:
+            integ0 = make(kind, sysm, 0.3)
+            for sub in ("_step_a", "_step_b", "_step_a_fwd", "_step_a_adj", "_step_b_fwd", "_step_b_adj", "_step_c_fwd", "_step_c_adj"):
+                if not hasattr(integ0, sub):
+                    continue
+                integ = make(kind, sysm, 0.3)
+                marker = ConvergenceError("injected by the replay")
+
+                def boom(*a, _m=marker, **k):
+                    raise _m
+                setattr(integ, sub, boom)
+                if name.startswith("constrained"):
+                    q = np.array([0.6, 0.8]) if name == "constrained" else np.array([2 * np.cos(0.7), np.sin(0.7), 0.3])
+                    p = sysm.project_onto_cotangent_space(np.array([0.5, -0.2] + ([0.3] if len(q) == 3 else [])), ChainState(pos=q, mom=None, dir=1))
+                else:
+                    q, p = np.array([0.3, -0.8]), np.array([0.9, 0.4])
+                try:
+                    integ._step(ChainState(pos=q.copy(), mom=p.copy(), dir=1), 0.3)
+                    fails.append(f"{kind} on {name}: ConvergenceError raised by sub-step {sub} was handled inside _step (silent fallback)")
+                except ConvergenceError as e:
+                    if e is not marker:
+                        fails.append(f"{kind} on {name}: error from sub-step {sub} replaced by another ConvergenceError")
+                except Exception as e:  # noqa: BLE001
+                    fails.append(f"{kind} on {name}: error from sub-step {sub} left _step as {type(e).__name__}")
     if fails:
         print("REPRODUCED:", fails[0])
         for f in fails[1:5]:
